@@ -30,7 +30,7 @@ Proof.
   apply in_concat in Hin. destruct Hin as (l & Hl & Hin). apply in_map_iff in Hl. destruct Hl as (b & <- & Hb).
   unfold batched_results in Hin. rewrite map_map in Hin.
   destruct (in_combine_map _ _ _ _ _ _ Hin) as [-> Hib].
-  apply batched_one_transparent; auto. apply in_map. exact Hib.
+  apply cur_one_transparent; auto. apply in_map. exact Hib.
 Qed.
 
 Theorem batched_rows_in_shard : forall h t fs arrival contents i rows l k v,
@@ -54,4 +54,33 @@ Proof.
   subst w. unfold unbatched_result, select_rows. apply Forall_forall. intros r Hr.
   apply filter_In in Hr. destruct Hr as [_ Hr].
   apply (where_pins_sound (WSimple (dfilter_of t (nth_filter fs i))) k d r); [exact Hd|apply is_tt_true; exact Hr].
+Qed.
+
+(** The same for the repaired batch function (C10-fix-2), for EVERY filter: no hypothesis on the Go types of
+    the filter values is left, because the repaired function never hands a caller a row its own query does not
+    select ([fixed_never_hands_foreign_rows]). *)
+Theorem fixed_batched_rows_in_shard : forall h t fs arrival contents i rows l k v,
+  table_ok t = true -> columns_ok t = true ->
+  forallb (row_representable t) contents = true ->
+  In (i, rows) (batched_by_arrival_g matcher_matches_fixed t fs arrival contents) ->
+  caller_outcome h t (nth_filter fs i) = Proceeds ->
+  filter_ptrs_okb (nth_filter fs i) l = true ->
+  In l (enforced_limits h) -> In (k, v) l ->
+  exists d, read_value t k v d /\ Forall (fun r => in_shard (cell r k) d) rows.
+Proof.
+  intros h t fs arrival contents i rows l k v Ht Hc Hrep Hin Hout Hptr Hl Hkv.
+  unfold batched_by_arrival_g in Hin.
+  apply in_concat in Hin. destruct Hin as (bl & Hbl & Hin). apply in_map_iff in Hbl. destruct Hbl as (b & <- & Hb).
+  unfold batched_results_g in Hin. rewrite map_map in Hin.
+  destruct (in_combine_map _ _ _ _ _ _ Hin) as [-> Hib].
+  destruct (caller_proceeds _ _ _ Hout) as [[w Hw] Hchk].
+  assert (Hcl := check_filter_limits_enforced _ _ _ Hchk Hl).
+  destruct (passing_filter_pins t _ w l Hw Hcl (filter_ptrs_okb_ok _ _ Hptr) k v Hkv) as (d & Hrd & Hd).
+  exists d. split; [exact Hrd|].
+  assert (Ew : w = dfilter_of t (nth_filter fs i)).
+  { unfold make_where in Hw. destruct (all_known (t_cols t) (nth_filter fs i)); [|discriminate]. inversion Hw. reflexivity. }
+  subst w. apply Forall_forall. intros r Hr.
+  assert (Hown := fixed_rows_are_own_rows t (map (nth_filter fs) b) (nth_filter fs i) contents r Ht Hc (in_map _ _ _ Hib) Hrep Hr).
+  unfold unbatched_result, select_rows in Hown. apply filter_In in Hown. destruct Hown as [_ Hown].
+  apply (where_pins_sound (WSimple (dfilter_of t (nth_filter fs i))) k d r); [exact Hd|apply is_tt_true; exact Hown].
 Qed.
